@@ -260,6 +260,17 @@ func c16GRPC(c *ctx) {
 	}
 	backs["delta"] = delta
 	defer delta.srv.Stop()
+	// a second TLS backend whose registration is first made without tlsskipverify (its certificate cannot be verified) and
+	// then corrected
+	ecrt := c11Make("eps-cert.pem", "epsilon.test")
+	epsilon, err := newC16Backend("epsilon", &scripts, grpc.Creds(credentials.NewTLS(&tls.Config{Certificates: []tls.Certificate{ecrt.TLS}})))
+	if err != nil {
+		c.R.Inconcl("tls backend: %v", err)
+		return
+	}
+	backs["epsilon"] = epsilon
+	defer epsilon.srv.Stop()
+	epsilonTag := "urlprefix-/pkg.Epsilon proto=grpcs"
 	certDir := filepath.Join(c.Dir, "c16cert")
 	os.MkdirAll(certDir, 0o755)
 	lcrt := c11Make("l-cert.pem", "fabio.test")
@@ -283,6 +294,7 @@ func c16GRPC(c *ctx) {
 			insts["n0/alpha"] = mk("alpha", "urlprefix-/pkg.Alpha proto=grpc")
 			insts["n0/beta"] = mk("beta", "urlprefix-beta.test/pkg.Shared proto=grpc")
 			insts["n0/delta"] = mk("delta", "urlprefix-/pkg.Delta proto=grpcs tlsskipverify=true")
+			insts["n0/epsilon"] = mk("epsilon", epsilonTag)
 			if withGamma {
 				insts["n0/gamma"] = mk("gamma", "urlprefix-/pkg.Shared proto=grpc")
 			} else {
@@ -647,6 +659,40 @@ func c16GRPC(c *ctx) {
 			time.Sleep(80 * time.Millisecond)
 		}
 		c.R.Nontrivial(fmt.Sprintf("short-absence-%d", h))
+	}
+	// phase 4b: a registration whose TLS options were wrong is corrected (same backend address): calls made under the
+	// wrong options fail, calls made after the correction must be served
+	{
+		invoke := func(id string) error {
+			scripts.Store(id, &c16Script{Msgs: [][]byte{{}}})
+			defer scripts.Delete(id)
+			ctx, cancel := context.WithTimeout(metadata.AppendToOutgoingContext(context.Background(), "x-verif-id", id), 5*time.Second)
+			defer cancel()
+			var reply []byte
+			req := []byte{}
+			return ccs.Invoke(ctx, "/pkg.Epsilon/Do", &req, &reply, grpc.ForceCodec(rawCodec{}))
+		}
+		errBefore := invoke("eps-before")
+		epsilonTag = "urlprefix-/pkg.Epsilon proto=grpcs tlsskipverify=true"
+		reg(true)
+		if err := rg.barrier(); err != nil {
+			c.R.Inconcl("barrier: %v", err)
+			return
+		}
+		var errAfter error
+		for try := 0; try < 20; try++ {
+			if errAfter = invoke(fmt.Sprintf("eps-after-%d", try)); errAfter == nil {
+				break
+			}
+			time.Sleep(250 * time.Millisecond)
+		}
+		c.R.Eval(2)
+		c.R.Nontrivial("tls-options-corrected")
+		if errBefore == nil {
+			c.R.Note("the call under the unverifiable registration succeeded: sub-check not exercised")
+		} else if errAfter != nil {
+			c.R.Violate("c16:corrected-route-never-served", fmt.Sprintf("a grpcs route registered without tlsskipverify failed as expected (%v); after the registration was corrected to tlsskipverify=true (same backend address) 20 calls over 5s still fail: %v", errBefore, errAfter), nil)
+		}
 	}
 	// phase 5: the backend leaves for good: every connection fabio ever opened to it (also those of simultaneous first
 	// calls) must be dropped
